@@ -1,0 +1,13 @@
+//go:build verif
+
+// Contracts for package frt, read by /verif's verifier (fovc).  Comment-only.
+
+package frt
+
+//@ mode slices=heap strings=smt
+
+//@ func NewTuple2
+//@   inline
+
+//@ func NewTuple3
+//@   inline
